@@ -69,6 +69,10 @@ CStep(S, r) ==
   ELSE IF ~S.ok THEN S
   ELSE CASE r.t = "api" -> OnApi(S, r)
     [] r.t = "fact" -> OnFact(S, r)
+    [] r.t = "tap" ->
+         \* C12: a payload delivered to a client is in the encoding epoch of its negotiated version
+         IF r.dir = "rx" /\ ~r.epochOk THEN Bad(S, "C12", "a payload with encodings newer than the recipient's version was delivered: " \o r.m.k)
+         ELSE S
     [] r.t = "fault" -> [S EXCEPT !.faulty = @ \cup {r.cl}]
     [] r.t = "cause" -> [S EXCEPT !.cause = r.cause]
     [] r.t = "quiescent" ->
